@@ -23,6 +23,8 @@ import (
 //	Set/Del/Push/Pop/SetLoader/Define                on the lexical context (the one handed to the enclosing body)
 //	Observe   record px.CurrentContext() and the state of the lexical context
 //	Panic     panic(user error)
+//	Goexit    runtime.Goexit(): the goroutine runs its deferred functions and ends (what t.FailNow / t.SkipNow do);
+//	          no recover point sees it
 //
 // L is the unique label of a node that creates a context/loader or observes.
 type Prog struct {
@@ -109,6 +111,8 @@ func (p *Prog) gallina() string {
 		return fmt.Sprintf("PObserve %s", gLabel(p.L))
 	case "Panic":
 		return "PPanic"
+	case "Goexit":
+		return "PGoexit"
 	}
 	panic("bad op " + p.Op)
 }
@@ -228,7 +232,7 @@ func caseStats(c *Case) (nodes, depth, spawns, scopes, panics int) {
 				spawns++
 			case "Do", "DoCtx", "DoParent", "DoLoader":
 				scopes++
-			case "Panic", "Pop":
+			case "Panic", "Pop", "Goexit":
 				panics++
 			}
 		}, 0)
